@@ -30,14 +30,7 @@ CFG = {
 }
 
 
-def documented_allow_none(case, cid):
-    """`allow_none` as documented (base.py): the cells' own setting; if that is None the space's; if that is None the
-    model's (False unless set) - computed from the program description, not read from modelx"""
-    cell = next(c for c in case["cells"] if c["id"] == cid)
-    for v in (cell.get("allow_none"), case["cells"][0].get("an_space"), case["cells"][0].get("an_model", False)):
-        if v is not None:
-            return bool(v)
-    return False
+documented_allow_none = X.documented_allow_none
 
 
 def none_rule(case, impl, out, stats, hist):
